@@ -1186,6 +1186,26 @@ func (g *gen) genNamed(name string, depth int) *J {
 	return o
 }
 
+func hasNull(j *J) bool {
+	switch j.K {
+	case 0:
+		return true
+	case 4:
+		for _, x := range j.A {
+			if hasNull(x) {
+				return true
+			}
+		}
+	case 5:
+		for _, m := range j.O {
+			if hasNull(m.V) {
+				return true
+			}
+		}
+	}
+	return false
+}
+
 func depthOf(t *Ty) int {
 	n := 0
 	for t.K != 0 {
@@ -1212,6 +1232,17 @@ func (g *gen) genVars() []VarDef {
 		if r.Chance(1, 3) {
 			if t.K == 1 && r.Chance(1, 4) {
 				v.Def = jNull()
+			} else if t.Strip().K == 1 && r.Chance(1, 3) {
+				// a default that needs list coercion: 1..depth of the list levels are left out
+				inner := t
+				for k := 1 + r.Pick(3); k > 0 && inner.Strip().K == 1; k-- {
+					inner = inner.Strip().Of
+				}
+				v.Def = g.genDefault(inner, nIn)
+				// an array is read at the OUTER list levels: a null in it could meet a non-null element type
+				if v.Def != nil && (v.Def.K == 0 || (v.Def.K == 4 && hasNull(v.Def))) {
+					v.Def = g.genDefault(t, nIn)
+				}
 			} else {
 				v.Def = g.genDefault(t, nIn)
 			}
